@@ -128,3 +128,111 @@ def effects(facts, roots, extra_stop=None):
         for a in atoms_of(n):
             out.setdefault(a, []).append((n, facts.path_to(parent, n)))
     return out, seen, ext
+
+
+# ---------------------------------------------------------------------------------------------
+# P-CONST: PARAMETERS tables
+
+KIND_BITS = {"BYTES": 1 << 1, "INTEGER": 1 << 2, "FLOAT": 1 << 3, "BOOLEAN": 1 << 4, "OBJECT": 1 << 5, "ARRAY": 1 << 6,
+             "TIMESTAMP": 1 << 7, "REGEX": 1 << 8, "NULL": 1 << 9, "UNDEFINED": 1 << 10}
+
+
+def const_int(b, op, depth=0):
+    """evaluate a small constant integer expression (consts combined with BitOr/BitAnd/Add/Shl) inside a const body"""
+    if not op:
+        return None
+    if op.get("k") == "const":
+        v = op.get("int")
+        try:
+            return int(v) if v is not None else None
+        except (TypeError, ValueError):
+            return None
+    l = op_local(op)
+    if l is None or depth > 8:
+        return None
+    ds = b.defs().get(l, [])
+    if len(ds) != 1 or ds[0][0] != "stmt":
+        return None
+    rv = ds[0][3]["rv"]
+    if rv["k"] in ("use", "cast"):
+        return const_int(b, rv["op"], depth + 1)
+    if rv["k"] == "binop":
+        x, y = const_int(b, rv["a"], depth + 1), const_int(b, rv["b"], depth + 1)
+        if x is None or y is None:
+            return None
+        return {"BitOr": x | y, "BitAnd": x & y, "Add": x + y, "Shl": x << y if y < 64 else None, "BitXor": x ^ y, "Sub": x - y}.get(rv["op"])
+    if rv["k"] == "unop" and rv["op"] == "Not":
+        x = const_int(b, rv["a"], depth + 1)
+        return (~x) & 0xFFFF if x is not None else None
+    return None
+
+
+def _scan_param_calls(facts, body_names):
+    out = []
+    body_names = list(body_names)
+    seen_bodies = set()
+    while body_names:
+        bn = body_names.pop(0)
+        if bn in seen_bodies or not facts.has(bn):
+            continue
+        seen_bodies.add(bn)
+        b = facts.body(bn)
+        # statics/consts referenced from the table (shared Parameter definitions)
+        raw = b.d
+        for bi, si, st in b.iter_stmts():
+            for op in [st["rv"].get("op"), st["rv"].get("a"), st["rv"].get("b")] + list(st["rv"].get("ops", [])):
+                if isinstance(op, dict) and op.get("k") == "const":
+                    for key in ("static", "item"):
+                        if op.get(key) and op[key] not in seen_bodies:
+                            nm = op[key] if "promoted" not in op or key == "static" else "%s::{promoted#%d}" % (op[key], op["promoted"])
+                            body_names.append(nm)
+                            body_names.extend(facts.promoteds_of(nm))
+        chain = {}   # local -> param dict (follows .default()/.enum_variants() builder calls)
+        for bi, si, st in b.iter_stmts():
+            rv = st["rv"]
+            if rv["k"] == "agg" and rv.get("adt") == "compiler::function::Parameter":
+                fl = dict(zip(rv.get("fnames", []), rv["ops"]))
+                p = {"keyword": fl.get("keyword", {}).get("str"), "kind": const_int(b, fl.get("kind", {})),
+                     "required": fl.get("required", {}).get("bool"), "default": None, "enum": None, "line": st.get("ln"), "file": b.file}
+                out.append(p)
+        for bb, t in b.calls():
+            cal = b.callee(t)
+            if cal in ("compiler::function::Parameter::required", "compiler::function::Parameter::optional"):
+                kw = t["args"][0].get("str")
+                kind = const_int(b, t["args"][1])
+                p = {"keyword": kw, "kind": kind, "required": cal.endswith("required"),
+                     "default": False, "enum": False, "line": t["ln"], "file": b.file}
+                chain[t["dest"]["l"]] = p
+                out.append(p)
+            elif cal in ("compiler::function::Parameter::default", "compiler::function::Parameter::enum_variants"):
+                src = op_local(t["args"][0])
+                p = chain.get(src)
+                if p is not None:
+                    p["default" if cal.endswith("default") else "enum"] = True
+                    chain[t["dest"]["l"]] = p
+    return out
+
+
+def parameters_of(facts, f):
+    """list of declared parameters of an `impl Function` (from the const/promoted body parameters() returns)"""
+    name = f["items"].get("parameters")
+    if not name:
+        return []          # trait default: no parameters
+    if not facts.has(name):
+        return None
+    b = facts.body(name)
+    srcs = [name] + facts.promoteds_of(name)
+    for bi, si, s in b.iter_stmts():
+        rv = s["rv"]
+        ops = []
+        if rv["k"] in ("use", "cast"):
+            ops = [rv["op"]]
+        for op in ops:
+            if op.get("k") == "const" and op.get("item"):
+                it = op["item"]
+                if "promoted" in op:
+                    srcs.append("%s::{promoted#%d}" % (it, op["promoted"]))
+                else:
+                    srcs.append(it)
+                    srcs += facts.promoteds_of(it)
+    return _scan_param_calls(facts, srcs)
